@@ -18,6 +18,7 @@ Action formats (JSON-able lists):
   ["lag", actor, seconds]             `actor` is slow (inbox not served) for `seconds` while the others run
   ["lagcmd", actor, seconds, topic, payload]   the command arrives while `actor` is slow
   ["postlag", actor, seconds, topic, payload]  `actor` processes the command at once and is slow afterwards
+  ["racelag", actor, seconds, topic, payload]  `actor`'s next timer fires while it is slow; the command arrives meanwhile
 """
 from __future__ import annotations
 
@@ -199,6 +200,28 @@ class Runner:
                     w.fire(e)
             w.settle(order=self.order)
             self.at_settled()
+        elif op == "racelag":
+            # `actor`'s next timer fires while the actor is slow (busy for a[2] s, e.g. in a slow sensor read): the fired call
+            # waits in its inbox, the command arrives meanwhile and the others react to it; then the actor catches up
+            actor, secs, topic, payload = a[1], a[2], a[3], a[4]
+            act = w.actor(actor)
+            mine = [e for e in w.pending_timers() if e[2].owner == actor]
+            if mine:
+                due = mine[0][0]
+                if due > w.now_us:
+                    self.run_prompt((due - w.now_us) / 1e6 - 0.000001)
+                w.frozen.add(act)
+                w.advance_to(due)
+                for e in w.due_timers():
+                    if e[2].owner == actor and not e[2].cancelled and not e[2].fired:
+                        w.fire(e)
+            else:
+                w.frozen.add(act)
+            s.mqtt_in(topic, payload)
+            self.run_prompt(secs)
+            w.frozen.discard(act)
+            w.settle(order=self.order)
+            self.at_settled()
         else:
             raise ValueError(f"unknown action {a}")
         for m in self.monitors:
@@ -303,6 +326,8 @@ def gen_action(rng: random.Random, profile: str = "general"):
         return ["lagcmd", rng.choice(["Disinfection", "Heating", "Swim", "Tank"]), rng.choice([1.5, 3.0]), "/settings/mode", rng.choice(MODES)]
     if x < 0.97:
         return ["lag", rng.choice(["Filtration", "Heating", "Tank", "Swim", "Disinfection"]), rng.choice([0.5, 1.0])]
+    if x < 0.975:
+        return ["racelag", rng.choice(["Disinfection", "Heating", "Swim", "Tank"]), rng.choice([1.5, 3.0]), "/settings/mode", rng.choice(MODES)]
     n = rng.randint(2, 4)
     cmds = []
     for _ in range(n):
